@@ -29,13 +29,15 @@ D6 == [ nan |-> <<"f64nan">>, pinf |-> <<"f64inf", FALSE>>, ninf |-> <<"f64inf",
         m |-> <<"map", [k |-> <<"int", 1>>]>>, mt |-> <<"map", <<>>>>,
         sl |-> <<"slice", <<>>>>, np |-> <<"nilptr">>, nl |-> <<"nil">>,
         rec |-> <<"func", "rec">>, tm |-> <<"tmapint", [z |-> 0, o |-> 1]>>,
-        bt |-> <<"bool", TRUE>>, bf |-> <<"bool", FALSE>> ]
+        bt |-> <<"bool", TRUE>>, bf |-> <<"bool", FALSE>>,
+        t0 |-> <<"time", -719162, 0, 0>>, t1 |-> <<"time", 0, 0, 0>>,            \* the zero time 0001-01-01T00:00:00Z and the Unix epoch: times are truthy
+        st |-> <<"struct", [A |-> <<"int", 0>>, B |-> <<"nil">>, N |-> <<"nil">>, P |-> <<"nil">>], <<"c">>>>, ss0 |-> <<"strs", <<>>>> ]
 
 \* C05: values in several spellings and Go kinds
 D5 == [ int1 |-> <<"int", 1>>, f1 |-> <<"f64", FALSE, <<1>>, 0>>, f01 |-> <<"f64", FALSE, <<1>>, -1>>,
         i64 |-> <<"int64", FALSE, <<9,0,0,7,1,9,9,2,5,4,7,4,0,9,9,3>>>>, negzero |-> <<"f64", TRUE, <<>>, 0>>,
         s1 |-> <<"str", <<49>>>>, sa |-> <<"str", <<97>>>>, nl |-> <<"nil">>, np |-> <<"nilptr">>, bt |-> <<"bool", TRUE>>,
-        i32 |-> <<"int32", -2>>, d3 |-> <<"dec", FALSE, <<3>>, -1>> ]
+        i32 |-> <<"int32", -2>>, d3 |-> <<"dec", FALSE, <<3>>, -1>>, m5 |-> <<"map", [k |-> <<"int", 1>>]>>, t5 |-> <<"time", 19000, 0, 0>> ]
 \* C16: shapes
 D16 == [ m |-> <<"map", [a |-> <<"map", [b |-> <<"map", [a |-> <<"int", 7>>, z |-> <<"nil">>]>>, z |-> <<"int", 0>>, n |-> <<"nilptr">>]>>,
                          b |-> <<"str", <<120>>>>, z |-> <<"nil">>, len |-> <<"int", 3>>]>>,
@@ -55,7 +57,7 @@ D3 == [ i |-> <<"int", 2>>, f |-> <<"f64", FALSE, <<1,5>>, -1>>, s |-> <<"str", 
         st |-> <<"struct", [A |-> <<"int", 1>>, B |-> <<"nil">>, N |-> <<"nil">>, P |-> <<"nil">>], <<"c">>>>, ps |-> <<"ptrstruct", [A |-> <<"int", 1>>, B |-> <<"nil">>, N |-> <<"nil">>, P |-> <<"nil">>], <<"c">>>>,
         sl |-> <<"slice", <<<<"int", 1>>, <<"str", <<98>>>>>>>>, ss |-> <<"strs", <<<<97>>, <<98>>>>>>, u |-> <<"uint", 3>>,
         t |-> <<"time", 0, 0, 0>>, rec |-> <<"func", "rec">>, fail |-> <<"func", "fail">>, failv |-> <<"func", "failv">>, add2 |-> <<"func", "add2">>, cat |-> <<"func", "cat">>,
-        nan |-> <<"f64nan">>, inf |-> <<"f64inf", FALSE>>, ninf |-> <<"f64inf", TRUE>> ]
+        nan |-> <<"f64nan">>, inf |-> <<"f64inf", FALSE>>, ninf |-> <<"f64inf", TRUE>>, nb |-> <<"nilbig">> ]
 \* C10: full map and its restrictions are built by the driver
 D10 == [ a |-> <<"map", [b |-> <<"map", [c |-> <<"int", 1>>]>>, k |-> <<"int", 2>>]>>, b |-> <<"int", 3>>, c |-> <<"str", <<99>>>>,
          f |-> <<"func", "rec">>, g |-> <<"func", "id">>, e |-> <<"int", 0>> ] @@ ("p$q" :> <<"int", 8>>)
@@ -81,6 +83,14 @@ DataFor(i, p) == IF i = "D10min" THEN [k \in (DOMAIN D10) \cap TopNames(p) |-> D
 \* successor per group, each group state one successor per (program of the group, data map).
 NoCase == /\ toks' = <<>> /\ d' = "" /\ data' = <<>> /\ out' = <<"none">> /\ fields' = <<>>
 Init == /\ tree = <<"seed">> /\ toks = <<>> /\ d = "" /\ data = <<>> /\ out = <<"none">> /\ fields = <<>>
+\* laws that hold whatever the cells are: [a == b, a != b] and [a === b, a !== b] evaluate to a pair of opposite booleans
+\* (or to an error) also where the specification does not pin the comparison itself
+NegPair(x, y) == /\ x[1] = "Bin" /\ y[1] = "Bin" /\ x[3] = y[3] /\ x[4] = y[4]
+                 /\ <<x[2], y[2]>> \in {<<"==", "!=">>, <<"===", "!==">>}
+NegLaw == <<"oneof", <<"ok", <<"arr", <<Bool(TRUE), Bool(FALSE)>>>>, <<"ANY">>>>, <<"ok", <<"arr", <<Bool(FALSE), Bool(TRUE)>>>>, <<"ANY">>>>,
+            <<"err", <<"ANY">>>>>>
+LawOut(p, o) == IF o[1] = "unspec" /\ p[1] = "Arr" /\ Len(p[2]) = 2 /\ NegPair(p[2][1], p[2][2]) THEN NegLaw ELSE o
+
 Next == \/ /\ tree = <<"seed">>
            /\ \E g \in Groups : tree' = <<"group", g>>
            /\ NoCase
@@ -91,14 +101,14 @@ Next == \/ /\ tree = <<"seed">>
                 /\ d' = i
                 /\ toks' = Tok3(Unparse(p))
                 /\ data' = DataFor(i, p)
-                /\ out' = Outcome(p, [this |-> NormMap(DataFor(i, p)), log |-> <<>>])
+                /\ out' = LawOut(p, Outcome(p, [this |-> NormMap(DataFor(i, p)), log |-> <<>>]))
                 /\ fields' = FieldsOf(p)
 IsCase == tree[1] \notin {"seed", "group"}
 Spec == Init /\ [][Next]_vars
 
 \* the specification's own parser reads the spelling back as the same tree
 Reparse == IsCase => ParseTokens(toks) = <<"OK", tree>>
-EvalTotal == IsCase => out[1] \in {"ok", "err", "unspec"}
+EvalTotal == IsCase => out[1] \in {"ok", "err", "unspec", "oneof"}     \* "oneof": a law (LawOut) over an unpinned cell
 
 \* C07 frame condition on the specification: evaluation only ever adds or changes "$" entries
 Frame ==
